@@ -23,7 +23,7 @@ VARIABLE l
 Trace == ndJsonDeserialize(TraceFile)
 
 ObsFields == {"bal", "supply", "val", "pidx", "prev", "prevTotal", "uq", "sinfo", "bits",
-              "awardQ", "burnQ", "proposer", "pkrel"}
+              "awardQ", "burnQ", "proposer", "pkrel", "par"}
 
 PairSet(q) == {<< q[i][1], q[i][2] >> : i \in 1..Len(q)}
 
@@ -34,13 +34,13 @@ RealOf(p) ==
     uq |-> {[t |-> p.uq[i].t, ids |-> p.uq[i].ids] : i \in 1..Len(p.uq)},
     sinfo |-> p.sinfo, bits |-> [v \in Users |-> SeqToSet(p.bits[v])],
     awardQ |-> p.awardQ, burnQ |-> p.burnQ, proposer |-> p.proposer, pkrel |-> SeqToSet(p.pkrel),
-    dAuth |-> p.dAuth, dRest |-> p.dRest ]
+    dAuth |-> p.dAuth, dRest |-> p.dRest, par |-> [maxVals |-> p.maxVals, minStake |-> p.minStake] ]
 
 Adopt(pred, r) ==
   [pred EXCEPT !.bal = r.bal, !.supply = r.supply, !.val = r.val, !.pidx = r.pidx, !.prev = r.prev,
                !.prevTotal = r.prevTotal, !.uq = r.uq, !.sinfo = r.sinfo, !.bits = r.bits,
                !.awardQ = r.awardQ, !.burnQ = r.burnQ, !.proposer = r.proposer, !.pkrel = r.pkrel,
-               !.dAuth = r.dAuth, !.dRest = r.dRest]
+               !.dAuth = r.dAuth, !.dRest = r.dRest, !.par = r.par]
 
 Obs(s) == [f \in ObsFields |-> s[f]]
 
@@ -71,7 +71,7 @@ LegalTransitions(pre, post, a, res) ==
     IN ps = qs \/
        \* new / unstaked -> staked : by its own stake of at least the minimum, fully funded
        (ps \in {-1, Unstaked} /\ qs = Staked /\ a.a = "Tx" /\ a.kind = "stake" /\ a.from = v /\ res.class = "ok"
-          /\ a.amt >= MinStake /\ q.tokens = (IF p.ex THEN p.tokens ELSE 0) + a.amt) \/
+          /\ a.amt >= pre.par.minStake /\ q.tokens = (IF p.ex THEN p.tokens ELSE 0) + a.amt) \/
        \* staked -> unstaking : by its own begin-unstake
        (ps = Staked /\ qs = Unstaking /\ a.a = "Tx" /\ a.kind = "unstake" /\ a.from = v /\ res.class = "ok"
           /\ q.uat = pre.time + UnstakeTime /\ q.tokens = p.tokens) \/
